@@ -490,6 +490,12 @@ func (g *G) genC15(p *Plan) {
 			op = Op{K: "mkbucket", B: g.pick(bucketNames...)}
 		case r < 82 && c.Backend != "singlefs":
 			op = Op{K: "rmbucket", B: g.pick(bucketNames...)}
+			if (c.Backend == "bolt" || !crash) && g.chance(0.35) {
+				// forced deletion: on bolt one transaction, so a kill leaves the
+				// bucket whole or gone; on the file systems it is many unlinks
+				// and is only examined across a clean restart
+				op.Status = "force"
+			}
 		case r < 90:
 			op = Op{K: "get", B: bkt(), Key: key()}
 		default:
@@ -503,6 +509,14 @@ func (g *G) genC15(p *Plan) {
 	}
 	if !crash {
 		ops = append(ops, Op{K: "restart"})
+	}
+	if crash && c.Backend == "bolt" && g.chance(0.03) {
+		// a large bucket deleted by force: the deletion is one request and one
+		// acknowledged write whatever the number of objects
+		b := bkt()
+		ops = []Op{{K: "bulk", B: b, Max: g.pick2(1000, 1001, 1203, 2000, 2001, 2500)}, {K: "put", B: b, Key: key(), Body: g.body(g.smallSize())},
+			{K: "rmbucket", B: b, Status: "force"}, {K: "headbucket", B: b}}
+		c.CrashFrom = 2
 	}
 	p.Clients = [][]Op{ops}
 	c.Policy = simrt.Policy{Kind: "seq"}
@@ -759,6 +773,18 @@ func (g *G) rawRequest(c *Config, b string, keys []string, esc func(string) stri
 			`<CompleteMultipartUpload><Part><PartNumber>-1</PartNumber><ETag>x</ETag></Part></CompleteMultipartUpload>`,
 			`<CompleteMultipartUpload></CompleteMultipartUpload>`, `<CompleteMultipartUpload><Part>`, `<Wrong/>`, ``, "\x00\x01\x02",
 			`<CompleteMultipartUpload>`+strings.Repeat(`<Part><PartNumber>5</PartNumber><ETag>e</ETag></Part>`, 50)+`</CompleteMultipartUpload>`)
+		if g.chance(0.5) {
+			// parts that exist (2 and 5 are uploaded by the set-up), hostile ETag texts
+			etag := func() string {
+				return g.pick(`x`, `"`, `""`, `"""`, `&quot;`, `&#34;`, ``, `"abc`, `abc"`, `-`, ` `, `"5f9a1a1b64a9b2ba17c2fb3d6d2b8bdc"`, `5f9a1a1b64a9b2ba17c2fb3d6d2b8bdc`,
+					`"`+strings.Repeat("f", 32)+`"`, strings.Repeat(`"`, 33), `'x'`, `"x"-1`, "\"", `&#x22;&#x22;`, `<![CDATA["]]>`)
+			}
+			body = `<CompleteMultipartUpload>`
+			for _, n := range [][]int{{2}, {5}, {2, 5}, {5, 2}, {2, 2}, {2, 5, 7}}[g.rng.Intn(6)] {
+				body += fmt.Sprintf(`<Part><PartNumber>%d</PartNumber><ETag>%s</ETag></Part>`, n, etag())
+			}
+			body += `</CompleteMultipartUpload>`
+		}
 		return rq("mpu:complete-body", "POST", target(b, "mp/obj", nil)+"?uploadId="+g.pick("{up:0}", "31337"), withLen(nil), body)
 	case 6: // copy with hostile sources
 		src := g.pick("nobucket", "", "/", "/"+b, "/"+b+"/", b+"/"+k, "/"+b+"/"+k+"?versionId=abc", "/"+b+"/%zz", "//", "/nope/k", b+"/missing", "%")
